@@ -119,7 +119,21 @@ theorem restartAll_count (L : List Nat) (s : St) (n : Nat) (hL : ∀ k, k ∈ L 
 
 /-- **C06, one call**: the critical section of every API call acts on the abstract key set exactly
 as the specification says, and returns the results the specification allows. -/
-theorem execOp_refines (s : St) (op : Op) (hr : RefInv s) :
+theorem isLive_of_ne (c : Option Nat) (h : c ≠ some 0) : isLive c = c.isSome := by
+  cases c with
+  | none => rfl
+  | some n => cases n with
+    | zero => exact absurd rfl h
+    | succ n => rfl
+
+/-- the calls that report whether a context is set have looked at it first (`preOp`): no cancelled root
+context is installed when their critical section runs -/
+def NoDead (s : St) : Op → Prop
+  | .restartRoutine _ _ => s.ctx ≠ some 0
+  | .restartAll _ => s.ctx ≠ some 0 ∨ keyList s = []
+  | _ => True
+
+theorem execOp_refines (s : St) (op : Op) (hr : RefInv s) (hnd : NoDead s op) :
     abs (execOp s op).1 = specStep (abs s) (failedOf s) op ∧
     SpecOut (abs s) (abs (execOp s op).1) op (execOp s op).2.2 := by
   have hin := inSet_abs s
@@ -165,22 +179,48 @@ theorem execOp_refines (s : St) (op : Op) (hr : RefInv s) :
       | some r =>
         refine ⟨k, by simp [hr'], ?_⟩
         simp [hr', h2, data_abs s k r hr']
-  | resetRoutine k =>
+  | resetRoutine k cs =>
     have h := resetKey_refines s k
-    exact ⟨h.1, by simp only [SpecOut, execOp, h.2]⟩
-  | restartRoutine k =>
-    refine ⟨abs_touch (touch_restartKey s k), ?_⟩
-    simp only [SpecOut, execOp, restartKey_out, hin]; rfl
-  | resetAll =>
-    refine ⟨resetAll_refines s [], ?_⟩
-    exact ⟨keyList s, nodup_keyList s, fun k => by rw [mem_keyList, hin], rfl⟩
-  | restartAll =>
+    have hm := matchK_abs s cs k
+    simp only [execOp, specStep, SpecOut]
+    cases hmk : matchK s cs k
+    · rw [hmk] at hm
+      simp only [← hm, Bool.false_eq_true, if_false, Bool.and_false]
+      exact ⟨trivial, by simp [present, hin]⟩
+    · rw [hmk] at hm
+      simp only [← hm, if_true, Bool.and_true]
+      exact ⟨h.1, by rw [h.2]⟩
+  | restartRoutine k cs =>
+    have hm := matchK_abs s cs k
+    simp only [execOp, specStep, SpecOut]
+    cases hmk : matchK s cs k
+    · rw [hmk] at hm
+      simp only [← hm, Bool.false_eq_true, if_false, Bool.and_false]
+      exact ⟨trivial, by simp [present, hin]⟩
+    · rw [hmk] at hm
+      simp only [← hm, if_true, Bool.and_true]
+      refine ⟨abs_touch (touch_restartKey s k), ?_⟩
+      have hl : (abs s).hasCtx = s.ctx.isSome := isLive_of_ne s.ctx hnd
+      simp only [restartKey_out, hin, hl]
+  | resetAll cs =>
+    refine ⟨resetAll_refines s cs [], ?_⟩
+    refine ⟨keyList s, nodup_keyList s, fun k => by rw [mem_keyList, hin], ?_⟩
+    simp only [execOp]
+    congr 2
+    exact List.filter_congr (fun k _ => matchK_abs s cs k)
+  | restartAll cs =>
     refine ⟨restartAll_abs s _ 0, ?_⟩
     refine ⟨keyList s, nodup_keyList s, fun k => by rw [mem_keyList, hin], ?_⟩
     simp only [execOp]
-    rw [restartAll_count _ s 0 (fun k hk => (mem_keyList s k).1 hk)]
+    rw [restartAll_count _ s 0 (fun k hk => (mem_keyList s k).1 (List.mem_filter.1 hk).1)]
     simp only [Nat.zero_add]
-    rfl
+    have : (keyList s).filter (matchK s cs) = (keyList s).filter (specMatch (abs s) cs) :=
+      List.filter_congr (fun k _ => matchK_abs s cs k)
+    rw [this]
+    rcases hnd with hnd | hnd
+    · have hl : (abs s).hasCtx = s.ctx.isSome := isLive_of_ne s.ctx hnd
+      rw [hl]
+    · simp [hnd]
   | setContext c restart =>
     exact ⟨setContext_refines s c restart, rfl⟩
   | addKeyRef k => exact addKeyRef_refines s k
